@@ -129,6 +129,18 @@ Theorem C16_list_style : forall table dflt rend a f anc last t add_self trepr ti
 Proof. exact list_style_lines. Qed.
 Print Assumptions C16_list_style.
 
+(* format(join=j) / Tree.format(join=j) = j.join(lines of format_iter) *)
+Theorem C16_format_is_join : forall table dflt rend trepr f st a add_self ti j,
+  format table dflt rend f st a add_self j = res_join j (format_iter table dflt rend f st a add_self)
+  /\ tree_format table dflt rend trepr f a ti j = res_join j (tree_format_iter table dflt rend trepr f a ti)
+  /\ (forall l l2 r, join_text j [] = [] /\ join_text j [l] = l
+                     /\ join_text j (l :: l2 :: r) = l ++ j ++ join_text j (l2 :: r)).
+Proof.
+  exact (fun table dflt rend trepr f st a add_self ti j =>
+           conj eq_refl (conj eq_refl (fun l l2 r => conj eq_refl (conj eq_refl eq_refl)))).
+Qed.
+Print Assumptions C16_format_is_join.
+
 (* unknown style name: ValueError; tuple of another length: ValueError as
    soon as one node is rendered *)
 Theorem C16_errors : forall table dflt rend a f st add_self,
@@ -325,12 +337,7 @@ Theorem C16_generated_styles_flags : forall n s g,
   style_okb g = true
   /\ (is_space_style n = false -> anc_distinct g = true /\ last_distinct g = true)
   /\ (length s = 6 -> hc_distinct g = true).
-Proof.
-  intros n s g Lk U. split.
-  - destruct (table_ok_lookup CONNECTORS n s C16_table_ok Lk) as (g' & U' & OK).
-    rewrite U in U'. injection U' as <-. exact OK.
-  - exact (table_flags_lookup CONNECTORS n s g C16_table_flags_ok Lk U).
-Qed.
+Proof. exact (table_styles_flags CONNECTORS C16_table_ok C16_table_flags_ok). Qed.
 Print Assumptions C16_generated_styles_flags.
 
 (* ================================================================== *)
